@@ -33,6 +33,11 @@ type PropPlan struct {
 	Outside  []string     `json:"outside"`
 	Quick    []HarnessRun `json:"quick"`
 	Thorough []HarnessRun `json:"thorough"`
+	// AllowedCuts: the reasons (text before " @") for which paths are cut on the
+	// unchanged tree - the declared "outside the claim". A cut for another
+	// unsupported-* / engine-internal reason means the tree uses something the
+	// engine cannot encode: the run is then INCONCLUSIVE (exit 2), not a pass.
+	AllowedCuts []string `json:"allowed_cuts"`
 }
 
 type KnownFinding struct {
@@ -391,6 +396,47 @@ func cmdRun(args []string) int {
 					exit = 2
 				}
 			}
+		}
+	}
+	// cuts that the unchanged tree does not have: reduced coverage must not look like a pass
+	allowed := map[string]bool{}
+	for _, c := range pp.AllowedCuts {
+		allowed[c] = true
+	}
+	newCuts := map[string]int{}
+	for _, r := range results {
+		for k, n := range r.Cuts {
+			reason := k
+			if i := strings.Index(k, " @"); i >= 0 {
+				reason = k[:i]
+			}
+			if strings.HasPrefix(reason, "solver:") || allowed[reason] {
+				continue
+			}
+			newCuts[reason] += n
+		}
+	}
+	if os.Getenv("VERIF_PRINT_CUTS") != "" {
+		for _, r := range results {
+			for k := range r.Cuts {
+				reason := k
+				if i := strings.Index(k, " @"); i >= 0 {
+					reason = k[:i]
+				}
+				fmt.Printf("CUT-REASON %s %s\n", id, reason)
+			}
+		}
+	}
+	if len(newCuts) > 0 {
+		var rs []string
+		for k, n := range newCuts {
+			rs = append(rs, fmt.Sprintf("%s (%d paths)", k, n))
+		}
+		sort.Strings(rs)
+		notes = append(notes, "paths were cut for reasons that do not occur on the unchanged tree: "+strings.Join(rs, "; "))
+		fmt.Printf("REDUCED-COVERAGE property=%s: paths cut for reasons not seen on the unchanged tree (the engine cannot encode something this tree uses): %s\n", id, strings.Join(rs, "; "))
+		if exit == 0 {
+			exit = 2
 		}
 	}
 	writeEvidence(id, *tier, seed, pp, results, kfs, time.Since(t0), validated, notes)
